@@ -153,12 +153,10 @@ func (r *Reconciler) Reconcile(ctx context.Context, req reconcile.Request) (reco
 		return reconcile.Result{}, errors.Wrap(err, errListRevs)
 	}
 
-	var latestRev, existingRev int64
-
-	if lr := v1.LatestRevision(comp, rl.Items); lr != nil {
-		latestRev = lr.Spec.Revision
-	}
-
+	// Make sure we control all revisions of this Composition before we
+	// determine the latest one. LatestRevision only considers revisions we
+	// control, so we'd otherwise renumber from scratch (i.e. decrease revision
+	// numbers) when owner references were stripped by a backup and restore.
 	for i := range rl.Items {
 		rev := &rl.Items[i]
 
@@ -180,6 +178,16 @@ func (r *Reconciler) Reconcile(ctx context.Context, req reconcile.Request) (reco
 				return reconcile.Result{}, errors.Wrap(err, errOwnRev)
 			}
 		}
+	}
+
+	var latestRev, existingRev int64
+
+	if lr := v1.LatestRevision(comp, rl.Items); lr != nil {
+		latestRev = lr.Spec.Revision
+	}
+
+	for i := range rl.Items {
+		rev := &rl.Items[i]
 
 		// This revision does not match our current Composition.
 		if rev.GetLabels()[v1.LabelCompositionHash] != currentHash[:63] {
